@@ -10,7 +10,7 @@ import numpy as np
 ID = "C11"
 PROPS_FILE = "theories/Props/C11.v"
 EXTRACT = ("theories/Extract/XC11.v", "c11", ["entry_run", "entry_ref", "entry_check", "entry_fmul", "entry_fmul32", "entry_otsu",
-                                               "entry_geom", "entry_check_po", "entry_check_blocks"])
+                                               "entry_geom", "entry_check_po", "entry_check_blocks", "entry_robust", "entry_mct"])
 PYX = {}
 CASE_TIMEOUT = 120
 METHODS = ["Otsu", "MoG", "Background", "RobustBackground", "RidlerCalvard", "Kapur", "MCT"]
@@ -46,12 +46,17 @@ EXHAUSTIVE = {"quick": False, "thorough": False}
 
 # ------------------------------------------------------------------ translator
 
-def gen_files(ctx):
+def _gen_module():
     p = os.path.join(os.path.dirname(os.path.dirname(os.path.dirname(os.path.abspath(__file__)))),
                      "tools", "gen_threshold_c11.py")
     spec = importlib.util.spec_from_file_location("gen_threshold_c11", p)
     mod = importlib.util.module_from_spec(spec)
     spec.loader.exec_module(mod)
+    return mod
+
+
+def gen_files(ctx):
+    mod = _gen_module()
     return {"theories/Gen/ThresholdC11.v": mod.translate(ctx.staged_source("centrosome/threshold.py"),
                                                          ctx.staged_source("centrosome/smooth.py"),
                                                          ctx.staged_source("centrosome/otsu.py"))}
@@ -203,6 +208,59 @@ def _thr_case(rng, method, mod, small=False):
     return case
 
 
+def _size_thresholds(ctx):
+    """per method: the pixel counts at which its function (and the otsu helpers it calls) changes branch, read
+    from the integer constants the STAGED sources compare sizes with (get_mog_threshold: 512 ** 2)"""
+    try:
+        mod = _gen_module()
+        th = mod.size_thresholds(ctx.staged_source("centrosome/threshold.py"))
+        ot = mod.size_thresholds(ctx.staged_source("centrosome/otsu.py"))
+    except Exception as e:
+        ctx.note("size thresholds unavailable (%s): using the recorded ones" % e)
+        th, ot = {"get_mog_threshold": [262144]}, {"otsu": [256], "otsu3": [128]}
+    per = {}
+    for m, fn in METHOD_FN.items():
+        cs = set(th.get(fn, []))
+        if m == "Otsu":
+            for v in ot.values():
+                cs.update(v)
+        if m == "RidlerCalvard":
+            cs.update(ot.get("otsu", []))
+        per[m] = sorted(c for c in cs if c >= 2)
+    return per
+
+
+def _branch_cases(ctx, big=True, small=True):
+    """inputs whose masked-pixel count is just below, at and just above every size threshold of every method
+    function: small thresholds as ordinary (Global) cases, thresholds beyond the ordinary image sizes as `big`
+    cases (seed-described image; two identical calls and one call with the masked-out pixels scrambled)"""
+    rng = ctx.rng
+    cases = []
+    for method, cs in _size_thresholds(ctx).items():
+        for c in cs:
+            if c <= 2500 and small:
+                for count in (c - 1, c, c + 1):
+                    side = int(math.ceil(math.sqrt(1.5 * (count + 2)))) + 1
+                    cc = _thr_case(rng, method, 0, small=True)
+                    img = _image(rng, side, side, str(rng.choice(["uni", "bimodal"])))
+                    mask = np.zeros(side * side, bool)
+                    mask[rng.permutation(side * side)[:count]] = True
+                    kw = {}
+                    if method == "Otsu" and c == 128:
+                        kw = {"two_class_otsu": False, "use_weighted_variance": bool(rng.rand() < 0.5),
+                              "assign_middle_to_foreground": bool(rng.rand() < 0.5)}
+                    cc.update(img=img.tolist(), mask=mask.reshape(side, side).astype(int).tolist(), labels=None, lo=0.0, hi=1.0,
+                              kw=kw, dtype="float64", kind="uni", window=2)
+                    cases.append(cc)
+            elif c > 2500 and big and c <= 2000000:
+                side_w = 560 if c < 300000 else int(math.ceil(math.sqrt(1.3 * c)))
+                side_h = int(math.ceil(1.28 * (c + 1) / side_w))
+                for count in (c + 1, c):
+                    cases.append({"fn": "big", "method": method, "H": side_h, "W": side_w, "count": count,
+                                  "seed": int(rng.randint(1 << 30)), "threshold": c})
+    return cases
+
+
 def _mal_case(rng, what):
     """malformed stream: inputs outside the property's quantifier; only outcome-level claims are made"""
     method = str(rng.choice(METHODS[:1] + METHODS[2:]))          # not MoG (slow, nothing new here)
@@ -237,6 +295,28 @@ def _otsu_case(rng):
     return {"fn": "otsu", "ints": [int(x) for x in v], "bits": bits, "pseed": int(rng.randint(1 << 30)),
             "a2": int(rng.choice([-2, -1, 1, 2, 3])), "b": int(rng.randint(-8, 9)),
             "a": float(rng.uniform(0.2, 3.0)), "bf": float(rng.uniform(-1, 1))}
+
+
+def _body_case(rng, fn):
+    """reference models of method bodies on small dyadic data: robust background (trimming, mean, variance) and
+    maximum correlation (binning, arg-max)"""
+    n = int(rng.choice([3, 4, 7, 10, 20, 21, 40, 100, 199, 300]))
+    bits = int(rng.choice([3, 6, 10, 14]))
+    kind = str(rng.choice(["uni", "bimodal", "few"]))
+    if kind == "uni":
+        v = rng.randint(0, 1 << bits, n)
+    elif kind == "bimodal":
+        v = np.where(rng.rand(n) < 0.4, rng.normal(0.75, 0.08, n), rng.normal(0.25, 0.06, n)).clip(0, 1)
+        v = np.round(v * ((1 << bits) - 1)).astype(int)
+    else:
+        v = rng.choice(rng.randint(0, 1 << bits, 4), n)
+    c = {"fn": fn, "ints": [int(x) for x in v], "bits": bits}
+    if fn == "rob":
+        c.update(lof=float(rng.choice([0.0, 0.01, 0.05, 0.1, 0.2, 0.25])), uof=float(rng.choice([0.0, 0.05, 0.125, 0.3])),
+                 dev=float(rng.choice([0.0, 1.0, 2.0, 3.5])))
+    else:
+        c.update(bins=int(rng.choice([2, 16, 64, 256, 1000])))
+    return c
 
 
 def _fmul_cases(rng, n):
@@ -286,10 +366,18 @@ def generate(ctx):
     for what in ("window_too_large", "uint8_mask", "int_image"):
         for _ in range(ctx.n(6, 40)):
             cases.append(_mal_case(rng, what))
-    for _ in range(ctx.n(250, 3000)):
+    for _ in range(ctx.n(200, 3000)):
         cases.append(_otsu_case(rng))
     cases.extend(_fmul_cases(rng, ctx.n(300, 3000)))
+    for _ in range(ctx.n(90, 1500)):
+        cases.append(_body_case(rng, "rob"))
+        cases.append(_body_case(rng, "mct"))
+    if not ctx.quick():
+        cases.extend(_branch_cases(ctx))          # quick: only in the search after a broken obligation
     for c in cases:
+        if c["fn"] == "big":
+            ctx.count("big:%s:%d" % (c["method"], c["count"]))
+            continue
         if c["fn"] == "thr":
             ctx.count("thr:%s" % MODS[c["mod"]])
             ctx.count("thr:kind:%s" % c["kind"])
@@ -639,6 +727,40 @@ def impl(case):
                 "p32": float((np.array([a32]) * np.array([b32]))[0])}
     if case["fn"] == "mal":
         return _impl_mal(case)
+    if case["fn"] == "big":
+        import centrosome.threshold as T
+        prng = np.random.RandomState(case["seed"])
+        H, W = case["H"], case["W"]
+        img = prng.rand(H, W)
+        mask = np.zeros(H * W, bool)
+        mask[:case["count"]] = True
+        mask = mask.reshape(H, W)
+
+        def call(im):
+            return T.get_threshold(case["method"], "Global", im.copy(), mask=mask.copy(), threshold_range_min=0.0,
+                                   threshold_range_max=1.0)
+        o1 = _outcome(lambda: call(img))
+        o1b = _outcome(lambda: call(img))
+        im2 = img.copy()
+        im2[~mask] = prng.rand(int((~mask).sum()))
+        o2 = _outcome(lambda: call(im2))
+        return {"det": _same_outcome(o1, o1b), "ni": _same_outcome(o1, o2), "n_out": int((~mask).sum()),
+                "values": [float(o[2]) if o[0] == "ok" else o[1] for o in (o1, o1b, o2)]}
+    if case["fn"] in ("rob", "mct"):
+        import centrosome.threshold as T
+        x = (np.array(case["ints"], float) / float(1 << case["bits"])).reshape(1, -1)
+        if case["fn"] == "rob":
+            f = lambda im, mk: T.get_robust_background_threshold(im, mk, case["lof"], case["uof"], case["dev"])
+        else:
+            f = lambda im, mk: T.get_maximum_correlation_threshold(im, mk, case["bins"])
+        t = float(f(x.copy(), None))
+        # the same data reached through a mask (extra masked-out pixels interleaved)
+        big = np.zeros((1, 2 * x.shape[1]))
+        big[0, ::2] = x[0]
+        big[0, 1::2] = 0.5
+        mk = np.zeros(big.shape, bool)
+        mk[0, ::2] = True
+        return {"t": t, "t_masked": float(f(big, mk))}
     return _impl_thr(case) if case["fn"] == "thr" else _impl_otsu(case)
 
 
@@ -708,6 +830,15 @@ def model(ctx, cases, outs):
         res[k] = r
         if _tied(r):
             ctx.count("otsu_argmin_illconditioned_not_compared")
+    for fn, entry in (("rob", "entry_robust"), ("mct", "entry_mct")):
+        bi_ = [k for k, c in enumerate(cases) if c["fn"] == fn and not _bad(outs[k])]
+        ba = [[cases[k]["ints"], _q(cases[k]["lof"]), _q(cases[k]["uof"])] if fn == "rob" else
+              [cases[k]["ints"], cases[k]["bins"]] for k in bi_]
+        for k, r in zip(bi_, ctx.run_model(entry, ba)):
+            res[k] = r
+            if fn == "mct" and len(r) == 5 and r[4] != [] and _fr(r[3]) - _fr(r[4][0]) <= Fraction(1, 10 ** 6) * max(
+                    _fr(r[3]), Fraction(1, 10 ** 12)):
+                ctx.count("mct_argmax_illconditioned_not_compared")
     fi = [k for k, c in enumerate(cases) if c["fn"] == "fmul"]
     fa = [[_q(cases[k]["a"]), _q(cases[k]["b"])] for k in fi]
     for k, r, r32 in zip(fi, ctx.run_model("entry_fmul", fa), ctx.run_model("entry_fmul32", fa)):
@@ -745,6 +876,50 @@ def _cmp_run(out, m):
     return None
 
 
+def _cmp_body(case, out, m):
+    if _bad(out):
+        return "%s reference case raised/crashed: %s" % (case["fn"], str(out)[:200])
+    v, sc = case["ints"], 1 << case["bits"]
+    t = out["t"]
+    if case["fn"] == "rob":
+        if len(v) < 3:
+            exp = Fraction(0)
+        elif min(v) == max(v):
+            exp = Fraction(v[0], sc)
+        else:
+            low, hi, ln, mean, var = m
+            if ln == 0:
+                return None                                   # empty trimmed sample: NaN in the code, outside the comparison
+            mean, var = _fr(mean) / sc, _fr(var) / (sc * sc)
+            dev = Fraction(case["dev"])
+            # threshold = mean + dev * sqrt(var): compare the squares, and the side
+            d = Fraction(t) - mean
+            tol = Fraction(1, 10 ** 9)
+            if d < -tol * max(abs(mean), Fraction(1, sc)):
+                return "robust background: threshold %r below the trimmed mean %r (chops %d:%d of %d)" % (t, float(mean), low, hi, len(v))
+            lhs, rhs = d * d, dev * dev * var
+            if abs(lhs - rhs) > tol * max(rhs, lhs, Fraction(1, sc * sc) * tol):
+                return ("robust background: implementation %r, reference mean %r + %r * sqrt(var %r) = %r (chops %d:%d of %d)"
+                        % (t, float(mean), case["dev"], float(var), float(mean) + case["dev"] * math.sqrt(float(var)),
+                           low, hi, len(v)))
+            exp = None
+        if exp is not None and Fraction(t) != exp:
+            return "robust background (degenerate data): implementation %r, expected %r" % (t, float(exp))
+    else:
+        if min(v) == max(v):
+            if Fraction(t) != Fraction(v[0], sc):
+                return "MCT (constant data): implementation %r, expected %r" % (t, v[0] / sc)
+        else:
+            mn, mx, k, best = m[0], m[1], m[2], _fr(m[3])
+            second = None if m[4] == [] else _fr(m[4][0])
+            if second is not None and best - second <= Fraction(1, 10 ** 6) * max(best, Fraction(1, 10 ** 12)):
+                return None                                   # (nearly) tied arg-max; counted in check()
+            exp = Fraction(mn, sc) + Fraction(k) * Fraction(mx - mn, sc) / (case["bins"] - 1)
+            if abs(Fraction(t) - exp) > Fraction(1, 10 ** 12) * max(abs(exp), Fraction(1, sc)):
+                return "MCT: implementation %r, reference %r (bin %d of %d)" % (t, float(exp), k, case["bins"])
+    return None
+
+
 def compare(case, out, m):
     if case["fn"] == "fmul":
         if _bad(out) or not math.isfinite(out["p"]):
@@ -756,8 +931,10 @@ def compare(case, out, m):
             return "binary32: float32(%r) = %r, product with float32(%r) = %r; model %r, %r" % (
                 case["a"], out["a32"], case["b"], out["p32"], float(_fr(m[1][0])), float(_fr(m[1][1])))
         return None
-    if case["fn"] == "mal":
+    if case["fn"] in ("mal", "big"):
         return None
+    if case["fn"] in ("rob", "mct"):
+        return _cmp_body(case, out, m)
     if case["fn"] == "thr":
         if _bad(out):
             return "implementation crashed: %s" % (str(out)[:300],)
@@ -822,6 +999,24 @@ def check(ctx, cases, outs):
     bi, bargs = [], []
     for k, (c, o) in enumerate(zip(cases, outs)):
         if c["fn"] == "fmul":
+            continue
+        if c["fn"] == "big":
+            if _bad(o):
+                res[k] = "get_threshold crashed/hung on a %dx%d image: %s" % (c["H"], c["W"], str(o)[:200])
+            elif not o["det"]:
+                res[k] = ("S4 determinism: two identical %s calls on a %dx%d image with %d masked pixels (size threshold %d of "
+                          "the method's function) returned %r and %r" % (c["method"], c["H"], c["W"], c["count"],
+                                                                          c["threshold"], o["values"][0], o["values"][1]))
+            elif not o["ni"]:
+                res[k] = ("S1 non-interference: scrambling the %d masked-out pixels of a %dx%d image changed the %s threshold "
+                          "(%r vs %r)" % (o["n_out"], c["H"], c["W"], c["method"], o["values"][0], o["values"][2]))
+            continue
+        if c["fn"] in ("rob", "mct"):
+            if _bad(o):
+                res[k] = "%s raised/crashed on plain data: %s" % (c["fn"], str(o)[:200])
+            elif o["t"] != o["t_masked"] and not (o["t"] != o["t"] and o["t_masked"] != o["t_masked"]):
+                res[k] = "S1: the same data reached through a mask give a different %s threshold (%r vs %r)" % (
+                    c["fn"], o["t"], o["t_masked"])
             continue
         if c["fn"] == "mal":
             if _bad(o):
@@ -995,6 +1190,10 @@ def nontrivial(case, out):
         return (not _rejected(case)) and "raised" not in out and out["distinct"] >= 3 and out["n_out"] > 0
     if case["fn"] in ("fmul", "mal"):
         return False
+    if case["fn"] == "big":
+        return True
+    if case["fn"] in ("rob", "mct"):
+        return len(set(case["ints"])) >= 3
     return len(set(case["ints"])) >= 3
 
 
@@ -1030,6 +1229,9 @@ def kernel_crosscheck(ctx, cases, outs):
 def search_cases(ctx, rnd):
     rng = ctx.rng
     cases = []
+    if rnd == 0:
+        # targeted: every method function through all the branches its size comparisons open
+        cases.extend(_branch_cases(ctx))
     for _ in range(2):
         for method in METHODS:
             for mod in (0, 1, 2):
@@ -1042,7 +1244,14 @@ def search_cases(ctx, rnd):
 
 
 def shrink_candidates(case):
-    if case["fn"] in ("fmul", "mal"):
+    if case["fn"] in ("fmul", "mal", "big"):
+        return
+    if case["fn"] in ("rob", "mct"):
+        v = case["ints"]
+        if len(v) > 3:
+            h = len(v) // 2
+            for sv in (v[:h], v[h:], v[1:], v[:-1]):
+                yield dict(case, ints=sv)
         return
     if "again_of" in case:
         return
